@@ -237,7 +237,34 @@ def main():
             if rc != 0: return False
             return compare(ls, oc, om) is not None
         prefix = lines[:nhdr + (i - nhdr) + 1] if i >= nhdr else lines
-        if fails_spec(prefix):
+        ivf = prop.get("impl_violation")       # a property predicate on the implementation's own output lines
+        def fails_pred(ls):
+            oc, rc, _ = vlib.run_driver(cexe, "\n".join(ls) + "\n", env)
+            return rc == 0 and any(ivf(x) for x in oc)
+        def fails_crash(ls):
+            # the implementation dies (signal / sanitizer abort) on an operation for which the object model - the
+            # contract the C14-C17 theorems are about - defines an ordinary result
+            oc, rc, _ = vlib.run_driver(cexe, "\n".join(ls) + "\n", env)
+            if rc == 0: return False
+            om, _, _ = vlib.run_driver(model, "\n".join(ls) + "\n")
+            return len(oc) < len(om) and om[len(oc)].strip() not in ("fault", "undef", "bad-op") and not any(x.strip() == "bad-op" for x in om)
+        if fails_crash(prefix):
+            small = shrink(prefix, nhdr, fails_crash)
+            oc, rc, err = vlib.run_driver(cexe, "\n".join(small) + "\n", env)
+            om, _, _ = vlib.run_driver(model, "\n".join(small) + "\n")
+            opl = [l for l in small if l.strip() and not l.startswith("#")]
+            what = "implementation crashes (exit status %d) where the API contract defines a result: config=%s backend=%s op=%r contract=%s %s" % (
+                rc, cfg.name, be, (opl[len(oc)] if len(oc) < len(opl) else "?")[:80], om[len(oc)].strip()[:40], (err or "").strip().split("\n")[0][:120])
+            path = run.write_replay("%s-%s-%s" % (cfg.name, be, name), small, what)
+            run.violations.append((path, True, what))
+        elif ivf and fails_pred(prefix):
+            small = shrink(prefix, nhdr, fails_pred)
+            oc, _, _ = vlib.run_driver(cexe, "\n".join(small) + "\n", env)
+            msg = next(ivf(x) for x in oc if ivf(x))
+            what = "%s: config=%s backend=%s impl output %r" % (msg, cfg.name, be, next(x for x in oc if ivf(x))[:120])
+            path = run.write_replay("%s-%s-%s" % (cfg.name, be, name), small, what)
+            run.violations.append((path, True, what))
+        elif fails_spec(prefix):
             small = shrink(prefix, nhdr, fails_spec)
             oc, _, _ = vlib.run_driver(cexe, "\n".join(small) + "\n", env)
             osp, _, _ = vlib.run_driver(spec, "\n".join(small) + "\n")
